@@ -15,7 +15,12 @@ C37 — model of the revocation-evidence decision logic:
   verification before the signature is validated; the state is C04's.
 
 DER/OCSP/X.509 parsing, hashing (`certId` reconstruction) and signature / chain verification are
-facts supplied with the input (oracles). Times are unix seconds as `Int`.
+facts supplied with the input (oracles): per `SingleResponse` the three comparisons of
+`cert_id_matches_signer` (serial number, issuer name hash, issuer key hash) are separate facts and the
+model forms their conjunction as the code does. Times are unix seconds as `Int`. A time value of a
+matching `SingleResponse` that the code cannot re-parse (`NaiveDateTime::parse_from_str` fails on a
+GeneralizedTime with fractional seconds) is the status `badTime`: `from_der_checked` returns `Err`.
+The other `Err` exit (re-encoding an embedded certificate that was just decoded) is not reachable.
 -/
 namespace C2pa.C37
 
@@ -39,14 +44,21 @@ inductive Status
   | good (thisUpdate nextUpdate : Int)   -- nextUpdate, or producedAt + 24 h when absent
   | revoked (revAt : Int) (reason : Reason)
   | unknown
+  | badTime   -- good / revoked whose thisUpdate / nextUpdate / revocationTime does not re-parse
   deriving DecidableEq, Repr
 
-/-- One `SingleResponse`: does its `certId` (serial, issuer name hash, issuer key hash) identify
-the signing certificate, and what does it say. -/
+/-- One `SingleResponse`: the three comparisons `cert_id_matches_signer` makes between its `certId`
+and the signing certificate chain (`chain[0]` serial number; SHA-1/SHA-256 of `chain[1]`'s subject
+name and public key; all `false` when the chain has no issuer), and what the response says. -/
 structure Single where
-  certIdMatches : Bool
+  serialEq : Bool
+  nameHashEq : Bool
+  keyHashEq : Bool
   status : Status
   deriving DecidableEq, Repr
+
+/-- `cert_id_matches_signer`: serial number, issuer name hash **and** issuer key hash must match. -/
+def Single.certIdMatches (s : Single) : Bool := s.serialEq && s.nameHashEq && s.keyHashEq
 
 inductive Resp
   | undecodable                       -- not DER / not successful / no bytes / no basic response
@@ -59,6 +71,7 @@ inductive Verdict
   | clear (log : List Entry)   -- early `return Ok(output)`; `log` goes straight to the caller's log
   | note (e : Entry)           -- an entry for the internal log; the loop continues
   | pass                       -- nothing recorded; the loop continues
+  | abort                      -- `.map_err(|_e| OcspError::InvalidCertificate)?`: the function returns `Err`
   deriving DecidableEq, Repr
 
 def verdict (st : Option Int) (now : Int) : Status → Verdict
@@ -79,24 +92,28 @@ def verdict (st : Option Int) (now : Int) : Status → Verdict
     if inRange then .clear [] else .note (failE cRevoked)
   | .revoked _ .none => .note (failE cRevoked)
   | .unknown => .note (failE cUnknown)
+  | .badTime => .abort
 
-/-- The `for single_response in …` loop: `internal` accumulates, an early return drops it. -/
-def scan (st : Option Int) (now : Int) : List Single → List Entry → List Entry
-  | [], internal => internal
+/-- The `for single_response in …` loop: `internal` accumulates, an early return drops it;
+`none` = the function returned `Err` (nothing was appended to the caller's log before that). -/
+def scan (st : Option Int) (now : Int) : List Single → List Entry → Option (List Entry)
+  | [], internal => some internal
   | s :: rest, internal =>
     if !s.certIdMatches then scan st now rest internal
     else match verdict st now s.status with
-      | .clear l => l
+      | .clear l => some l
       | .note e => scan st now rest (internal ++ [e])
       | .pass => scan st now rest internal
+      | .abort => none
 
-/-- `from_der_checked`: (`ocsp_certs.is_some()`, entries appended to the caller's log). -/
-def fromDerChecked (r : Resp) (st : Option Int) (now : Int) : Bool × List Entry :=
+/-- `from_der_checked`: `none` = `Err`; else (`ocsp_certs.is_some()`, entries appended to the
+caller's log). -/
+def fromDerChecked (r : Resp) (st : Option Int) (now : Int) : Option (Bool × List Entry) :=
   match r with
-  | .undecodable => (false, [])
-  | .noCerts _ => (false, [])
-  | .parsed false _ => (false, [])
-  | .parsed true singles => (true, scan st now singles [])
+  | .undecodable => some (false, [])
+  | .noCerts _ => some (false, [])
+  | .parsed false _ => some (false, [])
+  | .parsed true singles => (scan st now singles []).map fun l => (true, l)
 
 /-- Facts about the responder certificate (first embedded certificate). -/
 structure Responder where
@@ -106,11 +123,13 @@ structure Responder where
 
 /-- `check_stapled_ocsp_response`: the entries appended to the caller's log (always `Ok`). -/
 def checkStapled (r : Resp) (rp : Responder) (st : Option Int) (now : Int) : List Entry :=
-  let (certs, log) := fromDerChecked r st now
-  if !certs then []
-  else if !rp.profileOk then []
-  else if !rp.trusted then []
-  else log
+  match fromDerChecked r st now with
+  | none => []   -- `let Ok(ocsp_data) = … else { return Ok(OcspResponse::default()) }`
+  | some (certs, log) =>
+    if !certs then []
+    else if !rp.profileOk then []
+    else if !rp.trusted then []
+    else log
 
 def hasCode (l : List Entry) (c : Code) : Bool := l.any (fun e => e.1 == c)
 
@@ -167,26 +186,56 @@ def report (staple : Option (Resp × Responder)) (asserted : List (Resp × Respo
     some (claimState staple asserted st now rest, claimLog staple asserted st now rest)
   else none
 
+/-! ### store level: certificate-status assertions -/
+
+/-- `Store::get_store_validation_info` runs `from_der_checked(der, chain, None, …)` over the
+responses of the manifest's certificate-status assertions to file them under the serial number they
+are about; `prePassLog r` is what that call appends to the log it is handed. -/
+def prePassLog (r : Resp) (now : Int) : List Entry :=
+  match fromDerChecked r none now with
+  | some (_, l) => l
+  | none => []
+
+/-- The entries of that pass that reach the validation log: none — the pass uses a scratch log
+(repaired; it used to be the validation log itself, see `prePassLeak`). -/
+def prePass (_asserted : List (Resp × Responder)) (_now : Int) : List Entry := []
+
+/-- What the pass wrote into the validation log before the repair. -/
+def prePassLeak (asserted : List (Resp × Responder)) (now : Int) : List Entry :=
+  asserted.flatMap fun x => prePassLog x.1 now
+
+/-- A `Reader`'s report for a manifest whose certificate-status assertion carries `asserted`. -/
+def reportStore (staple : Option (Resp × Responder)) (asserted : List (Resp × Responder))
+    (st : Option Int) (now : Int) (rest : List Entry) : Option (C04.State × List Entry) :=
+  if (checkOcspStatus staple asserted st now).ok then
+    let l := prePass asserted now ++ claimLog staple asserted st now rest
+    some (C04.state { active := some (toCodes l), deltas := none }, l)
+  else none
+
 /-! ### line protocol -/
 
 def parseInt (s : String) : Int := s.toInt?.getD 0
 def parseOptInt (s : String) : Option Int := if s == "-" then none else s.toInt?
 
-/-- `<m>g<this>~<next>` | `<m>r<at>~<n|c|o>` | `<m>u`, `m` = 1/0 for the certId match -/
+/-- `<snk>g<this>~<next>` | `<snk>r<at>~<n|c|o>` | `<snk>u` | `<snk>x`; `s`,`n`,`k` = 1/0 for the
+serial-number, issuer-name-hash and issuer-key-hash comparisons -/
 def parseSingle (s : String) : Option Single :=
-  let m := s.startsWith "1"
-  let body := (s.drop 1).toString
-  if body == "u" then some ⟨m, .unknown⟩
-  else
-    let k := body.take 1 |>.toString
-    match ((body.drop 1).toString).splitOn "~" with
-    | [a, b] =>
-      if k == "g" then some ⟨m, .good (parseInt a) (parseInt b)⟩
-      else if k == "r" then
-        some ⟨m, .revoked (parseInt a)
-          (if b == "n" then .none else if b == "c" then .removeFromCrl else .other)⟩
-      else none
-    | _ => none
+  match (s.take 3).toString.toList.map (· == '1') with
+  | [sn, nm, ky] =>
+    let body := (s.drop 3).toString
+    if body == "u" then some ⟨sn, nm, ky, .unknown⟩
+    else if body == "x" then some ⟨sn, nm, ky, .badTime⟩
+    else
+      let k := body.take 1 |>.toString
+      match ((body.drop 1).toString).splitOn "~" with
+      | [a, b] =>
+        if k == "g" then some ⟨sn, nm, ky, .good (parseInt a) (parseInt b)⟩
+        else if k == "r" then
+          some ⟨sn, nm, ky, .revoked (parseInt a)
+            (if b == "n" then .none else if b == "c" then .removeFromCrl else .other)⟩
+        else none
+      | _ => none
+  | _ => none
 
 /-- `U` | `N:<singles>` | `P<0|1>:<singles>` (singles separated by `,`) -/
 def parseResp (s : String) : Resp :=
@@ -220,9 +269,10 @@ def parseEntries (s : String) : List Entry :=
 def handle (toks : List String) : String :=
   match toks with
   | "fdc" :: rest =>
-    let o := fromDerChecked (parseResp (field rest "resp")) (parseOptInt (field rest "st"))
-      (parseInt (field rest "now"))
-    (if o.1 then "certs" else "nocerts") ++ " log=" ++ logStr o.2
+    match fromDerChecked (parseResp (field rest "resp")) (parseOptInt (field rest "st"))
+      (parseInt (field rest "now")) with
+    | none => "err"
+    | some o => (if o.1 then "certs" else "nocerts") ++ " log=" ++ logStr o.2
   | "cos" :: rest =>
     let st := parseOptInt (field rest "st")
     let now := parseInt (field rest "now")
@@ -236,7 +286,20 @@ def handle (toks : List String) : String :=
     let now := parseInt (field rest "now")
     let staple := let s := field rest "staple"; if s == "-" then none else parseRR s
     let restLog := parseEntries (field rest "rest")
-    match report staple [] st now restLog with
+    let asserted := let s := field rest "asserted"
+      if s == "-" || s == "" then [] else (s.splitOn ";").filterMap parseRR
+    match report staple asserted st now restLog with
+    | none => "read-error"
+    | some (s, l) =>
+      s.str ++ " log=" ++ logStr (l.filter fun e => "signingCredential.ocsp.".toList.isPrefixOf e.1)
+  | "e2a" :: rest =>
+    let st := parseOptInt (field rest "st")
+    let now := parseInt (field rest "now")
+    let staple := let s := field rest "staple"; if s == "-" then none else parseRR s
+    let restLog := parseEntries (field rest "rest")
+    let asserted := let s := field rest "asserted"
+      if s == "-" || s == "" then [] else (s.splitOn ";").filterMap parseRR
+    match reportStore staple asserted st now restLog with
     | none => "read-error"
     | some (s, l) =>
       s.str ++ " log=" ++ logStr (l.filter fun e => "signingCredential.ocsp.".toList.isPrefixOf e.1)
